@@ -301,9 +301,16 @@ def relations(ctx, rows, hs, method, cl, dist):
         if sc[0] != "ok":
             ctx.violation("rescaled series raises", desc, "ok", sc[1])
         else:
+            m = model_call(ctx, rows, hs, method, Fraction(cl), dist)
             for i in range(len(rows)):
                 s, s2 = float(b["dm_test_stat"].values[i]), float(sc[1]["dm_test_stat"].values[i])
-                if not close_f(s2, s, rel=1e-7):
+                vn2, vabs = vhat_condition(m[i], int(hs[i]))
+                if vn2 == 0:
+                    # V_hat exactly zero: NaN for a constant series (checked in check_call); otherwise binary64 cancellation
+                    # (which a non-power-of-two rescaling changes) decides between NaN and a huge value
+                    ctx.count("boundary:vhat_exactly_zero(scale)")
+                    continue
+                if not close_f(s2, s, rel=1e-8 + 1e-12 * m[i]["len"] * float(vabs / abs(vn2))):
                     ctx.violation("positive rescaling changes the HLN statistic", dict(desc, series_index=i, scale=c), s, s2)
         ctx.count("relation:scale")
     # each series is treated independently of the others in the call
@@ -380,19 +387,54 @@ def known_reproduction(ctx):
     check_call(ctx, rows, [1, 3], "HG", 0.95, "t")
 
 
+def tiny_exhaustive(ctx, maxlen, methods):
+    """every series over {-1/2, 0, 1/2} of length 2..maxlen x every h below the length: all tie / zero-mean / constant patterns"""
+    import itertools
+    vals = (-0.5, 0.0, 0.5)
+    for n in range(2, maxlen + 1):
+        allser = [list(t) for t in itertools.product(vals, repeat=n)]
+        for h in range(1, n):
+            for method in methods:
+                for k in range(0, len(allser), 27):
+                    if not ctx.time_left():
+                        return False
+                    chunk = allser[k:k + 27]
+                    check_call(ctx, chunk, [h] * len(chunk), method, 0.9, "t" if (n + h) % 2 else "normal")
+        ctx.count("tiny_exhaustive:len=%d" % n)
+    return True
+
+
+def replay(ctx, rec):
+    import scores.stats.statistical_tests  # noqa: F401
+    v = rec.get("violation") or {}
+    c = v.get("case") or {}
+    if c.get("fn") == "acovf" or "series" not in c:
+        return run(ctx)
+    rows = [[float("nan") if x is None else float(x) for x in r] for r in c["series"]]
+    hs = [float("nan") if isinstance(h, str) else h for h in c["h"]]
+    check_call(ctx, rows, hs, c["method"], float(c["confidence_level"]), c["statistic_distribution"],
+               h_float=any(isinstance(h, float) for h in hs))
+    relations(ctx, rows, hs, c["method"], float(c["confidence_level"]), c["statistic_distribution"])
+
+
 def run(ctx):
     import scores.stats.statistical_tests  # noqa: F401
     rng = ctx.rng
+    thorough = ctx.tier == "thorough"
     known_reproduction(ctx)
+    done = tiny_exhaustive(ctx, 5 if thorough else 4, ("HLN", "HG") if thorough else ("HLN",))
+    ctx.note("all series over {-1/2,0,1/2} of length 2..%d x all h enumerated completely (%s); longer / richer series sampled"
+             % (5 if thorough else 4, "HLN and HG" if thorough else "HLN"))
+    ctx.exhaustive = bool(done)
     # sweep: every h below the series length, both methods
-    for _ in range(ctx.n(6, 60)):
+    for _ in range(ctx.n(15, 150)):
         n = rng.randint(2, 9)
         kind, v = gen_series(rng, n)
         hs = list(range(1, n))
         for method in ("HLN", "HG"):
             check_call(ctx, [list(v) for _ in hs], hs, method, rng.choice(LEVELS), rng.choice(["normal", "t"]), kinds=[kind] * len(hs))
         ctx.count("sweep:all_h")
-    for i in range(ctx.n(120, 3000)):
+    for i in range(ctx.n(300, 6000)):
         if not ctx.time_left():
             break
         rows, hs, kinds = gen_call(ctx)
@@ -404,5 +446,5 @@ def run(ctx):
         check_call(ctx, rows, hs, method, cl, dist, transpose=rng.random() < 0.3, h_float=rng.random() < 0.2, kinds=kinds, sample=(i < 2))
         if i % 3 == 0:
             relations(ctx, rows, hs, method, cl, dist)
-    acovf_cases(ctx, ctx.n(40, 800))
-    malformed(ctx, ctx.n(30, 400))
+    acovf_cases(ctx, ctx.n(100, 2000))
+    malformed(ctx, ctx.n(60, 600))
